@@ -31,6 +31,8 @@ pub enum Ty {
     BigInt,
     Bool,
     Text,
+    /// DOUBLE: stored, compared and shown, never computed with
+    Double,
 }
 
 #[derive(Clone, Debug)]
@@ -132,6 +134,13 @@ fn val_of_word(w: &str) -> Option<Val> {
     if let Some(r) = w.strip_prefix('t') {
         return unhex(r).map(Val::Text);
     }
+    if let Some(r) = w.strip_prefix('f') {
+        // the bit pattern of a double; NaNs are not values of the case syntax
+        if r.is_empty() || !r.bytes().all(|c| c.is_ascii_digit()) {
+            return None;
+        }
+        return r.parse::<u64>().ok().filter(|b| !f64::from_bits(*b).is_nan()).map(Val::F64);
+    }
     None
 }
 
@@ -141,6 +150,7 @@ fn ty_char(t: Ty) -> char {
         Ty::BigInt => 'B',
         Ty::Bool => 'O',
         Ty::Text => 'S',
+        Ty::Double => 'D',
     }
 }
 
@@ -170,6 +180,7 @@ fn parse_db(w: &str) -> Option<Vec<Table>> {
                 'B' => Some(Ty::BigInt),
                 'O' => Some(Ty::Bool),
                 'S' => Some(Ty::Text),
+                'D' => Some(Ty::Double),
                 _ => None,
             })
             .collect();
@@ -179,7 +190,12 @@ fn parse_db(w: &str) -> Option<Vec<Table>> {
             for r in rows.split('|') {
                 let vs: Option<Vec<Val>> = r.split(',').map(val_of_word).collect();
                 let vs = vs?;
-                if vs.len() != tys.len() || vs.iter().any(|v| matches!(v, Val::F64(_))) {
+                // a double lives in a DOUBLE column and nothing else does
+                if vs.len() != tys.len()
+                    || vs.iter().zip(&tys).any(|(v, t)| {
+                        matches!(v, Val::F64(_)) != (*t == Ty::Double) && *v != Val::Null
+                    })
+                {
                     return None;
                 }
                 rs.push(vs);
@@ -417,9 +433,6 @@ const ARITH_OPS: [&str; 5] = ["add", "sub", "mul", "div", "mod"];
 fn p_expr(t: &mut Toks) -> Option<E> {
     let w = t.next()?;
     if let Some(v) = val_of_word(w) {
-        if matches!(v, Val::F64(_)) {
-            return None;
-        }
         return Some(E::Lit(v));
     }
     if let Some(k) = num_after("c", w) {
@@ -670,6 +683,7 @@ fn level(e: &E) -> u8 {
         E::Neg(..) | E::Pos(..) => 7,
         // a negative literal is written with a leading minus sign: it is a unary expression for the printer
         E::Lit(Val::Int(i)) if *i < 0 => 7,
+        E::Lit(Val::F64(b)) if f64::from_bits(*b).is_sign_negative() => 7,
         E::Lit(..) | E::Col(..) | E::Case(..) | E::StrFn(..) => 8,
         // `||` binds like + and -
         E::Concat(..) => 5,
@@ -682,7 +696,8 @@ fn sql_lit(v: &Val) -> String {
         Val::Int(i) => i.to_string(),
         Val::Bool(b) => if *b { "TRUE".into() } else { "FALSE".into() },
         Val::Text(s) => format!("'{}'", String::from_utf8_lossy(s).replace('\'', "''")),
-        Val::F64(b) => format!("{:e}", f64::from_bits(*b)),
+        // decimal notation with a fractional part (`2.0`, not `2`): a DOUBLE literal for the binder
+        Val::F64(b) => format!("{:?}", f64::from_bits(*b)),
     }
 }
 
@@ -760,6 +775,7 @@ fn sql_ty(t: Ty) -> &'static str {
         Ty::BigInt => "BIGINT",
         Ty::Bool => "BOOLEAN",
         Ty::Text => "TEXT",
+        Ty::Double => "DOUBLE",
     }
 }
 
@@ -798,6 +814,7 @@ pub fn expr_ty(e: &E, tys: &[Ty]) -> Option<Ty> {
         E::Lit(Val::Int(v)) => Some(if (I32_MIN..=I32_MAX).contains(v) { Ty::Int } else { Ty::BigInt }),
         E::Lit(Val::Text(_)) => Some(Ty::Text),
         E::Lit(Val::Bool(_)) => Some(Ty::Bool),
+        E::Lit(Val::F64(_)) => Some(Ty::Double),
         E::Lit(_) => None,
         E::Col(i) => Some(tys.get(*i).copied().unwrap_or(Ty::BigInt)),
         E::Neg(a) | E::Pos(a) => expr_ty(a, tys),
@@ -1105,6 +1122,10 @@ fn cmp_key(asc: bool, a: &Val, b: &Val) -> std::cmp::Ordering {
         (Val::Null, _) => Greater,
         (_, Val::Null) => Less,
         (Val::Int(x), Val::Int(y)) => x.cmp(y),
+        // values of a DOUBLE column: the integral ones are shown as integers (all far below 2^53)
+        (Val::Int(x), Val::F64(y)) => (*x as f64).partial_cmp(&f64::from_bits(*y)).unwrap_or(Equal),
+        (Val::F64(x), Val::Int(y)) => f64::from_bits(*x).partial_cmp(&(*y as f64)).unwrap_or(Equal),
+        (Val::F64(x), Val::F64(y)) => f64::from_bits(*x).partial_cmp(&f64::from_bits(*y)).unwrap_or(Equal),
         (Val::Bool(x), Val::Bool(y)) => x.cmp(y),
         (Val::Text(x), Val::Text(y)) => x.cmp(y),
         (x, y) => rank(x).cmp(&rank(y)),
@@ -1343,6 +1364,16 @@ impl<'a> Gen<'a> {
                 let n = if p == Profile::Dups { 3 } else { WORDS.len() };
                 Val::Text(WORDS[self.rng.below(n as u64) as usize].as_bytes().to_vec())
             }
+            // eighths: exactly representable, printed exactly in decimal notation
+            Ty::Double => {
+                let k = match p {
+                    Profile::Dups => self.rng.range(3, 6),
+                    _ => {
+                        if self.rng.chance(1, 8) { self.rng.range(-800000, 800000) } else { self.rng.range(-12, 30) }
+                    }
+                };
+                Val::F64((k as f64 / 8.0).to_bits())
+            }
         }
     }
 
@@ -1353,7 +1384,7 @@ impl<'a> Gen<'a> {
             let t = match p {
                 Profile::Text => *self.rng.pick(&[Ty::Text, Ty::Text, Ty::Int]),
                 Profile::Boundary => *self.rng.pick(&[Ty::Int, Ty::BigInt, Ty::BigInt]),
-                _ => *self.rng.pick(&[Ty::Int, Ty::Int, Ty::BigInt, Ty::Text, Ty::Bool]),
+                _ => *self.rng.pick(&[Ty::Int, Ty::Int, Ty::Int, Ty::BigInt, Ty::BigInt, Ty::Text, Ty::Text, Ty::Bool, Ty::Bool, Ty::Double]),
             };
             tys.push(t);
         }
@@ -1552,12 +1583,23 @@ impl<'a> Gen<'a> {
         }
     }
 
+    /// a DOUBLE column or a decimal literal
+    fn dbl_operand(&mut self, tys: &[Ty], p: Profile) -> E {
+        let dcols = self.cols_of(tys, &[Ty::Double]);
+        if !dcols.is_empty() && self.rng.chance(1, 3) { E::Col(*self.rng.pick(&dcols)) } else { self.lit(Ty::Double, p) }
+    }
+
     /// a scalar of a random comparable type with a second scalar of the same type
     fn same_type_pair(&mut self, tys: &[Ty], p: Profile, depth: u32) -> (E, E, &'static str) {
         let has_text = !self.cols_of(tys, &[Ty::Text]).is_empty();
         let has_bool = !self.cols_of(tys, &[Ty::Bool]).is_empty();
         let k = self.rng.below(10);
-        if has_text && k < 3 {
+        let dcols = self.cols_of(tys, &[Ty::Double]);
+        if !dcols.is_empty() && self.rng.chance(1, 4) {
+            // DOUBLE values are only compared, with each other and with decimal literals
+            let a = E::Col(*self.rng.pick(&dcols));
+            (a, self.dbl_operand(tys, p), "dbl")
+        } else if has_text && k < 3 {
             (self.text_expr(tys, p), self.text_expr(tys, p), "text")
         } else if has_bool && k == 3 {
             let cols = self.cols_of(tys, &[Ty::Bool]);
@@ -1573,7 +1615,7 @@ impl<'a> Gen<'a> {
     fn cross_type_cmp(&mut self, tys: &[Ty]) -> E {
         let c = self.rng.below(tys.len() as u64) as usize;
         let lit = match tys[c] {
-            Ty::Int | Ty::BigInt => {
+            Ty::Int | Ty::BigInt | Ty::Double => {
                 if self.rng.chance(1, 2) { Val::Text(b"x".to_vec()) } else { Val::Bool(true) }
             }
             Ty::Text => {
@@ -1624,8 +1666,10 @@ impl<'a> Gen<'a> {
             5 => {
                 let neg = self.rng.chance(1, 2);
                 self.tag(if neg { "op.notnull" } else { "op.isnull" });
+                let dcols = self.cols_of(tys, &[Ty::Double]);
                 let e = match self.rng.below(3) {
                     0 => self.text_expr(tys, p),
+                    1 if !dcols.is_empty() => E::Col(*self.rng.pick(&dcols)),
                     _ => self.int_expr(tys, p, depth.min(1)),
                 };
                 E::IsNull(neg, Box::new(e))
@@ -1636,6 +1680,7 @@ impl<'a> Gen<'a> {
                 let hi = match t {
                     "text" => self.text_expr(tys, p),
                     "bool" => self.lit(Ty::Bool, p),
+                    "dbl" => self.dbl_operand(tys, p),
                     _ => self.int_expr(tys, p, depth.min(1)),
                 };
                 self.tag(&format!("{}.{}", if neg { "op.nbtw" } else { "op.btw" }, t));
@@ -1649,6 +1694,7 @@ impl<'a> Gen<'a> {
                     xs.push(match t {
                         "text" => self.text_expr(tys, p),
                         "bool" => self.lit(Ty::Bool, p),
+                        "dbl" => self.dbl_operand(tys, p),
                         _ => self.int_expr(tys, p, 0),
                     });
                 }
@@ -1857,6 +1903,9 @@ impl<'a> Gen<'a> {
         } else {
             self.rng.below(4)
         };
+        // the select list of a plain query under ORDER BY is evaluated in sorted order by the engine, in table order by
+        // the spec: if several rows fail differently the reported error differs, so the list is generated safe
+        let risky = if risky == 2 && kind >= 3 && order_kind < 6 { 0 } else { risky };
         let tys = from_tys(&from, db);
         let depth = self.rng.range(0, 3) as u32;
         self.safe_arith = risky != 1;
@@ -1906,6 +1955,8 @@ impl<'a> Gen<'a> {
                 Ty::Int | Ty::BigInt => 'i',
                 Ty::Text => 't',
                 Ty::Bool => 'b',
+                // shown only (like AVG)
+                Ty::Double => 'v',
             };
             let nkeys = self.rng.below(3) as usize;
             for _ in 0..nkeys {
@@ -2128,6 +2179,7 @@ impl<'a> Gen<'a> {
                         Ty::Int | Ty::BigInt => self.int_expr(&tys, p, 1),
                         Ty::Text => self.text_expr(&tys, p),
                         Ty::Bool => self.bool_expr(&tys, p, 0),
+                        Ty::Double => self.dbl_operand(&tys, p),
                     };
                     sets.push((c, e));
                 }
